@@ -637,6 +637,48 @@ def rule_bookkeeping_names(ctx):
             break
 
 
+def rule_lengths_of_query_defined_objects(ctx):
+    """C09.m: an object whose columns are defined by a query with sized VARCHAR casts — a view or a CREATE TABLE AS — has its
+    declared lengths recorded like a table with a column list (information_schema.columns / DESCRIBE report them)."""
+    from ..execmodel import ident, lit, node, table
+    from ..values import EnumV, Lst
+
+    prog = ctx.prog
+    n = 0
+    for label, kind, extra in (("CREATE VIEW … AS SELECT c::varchar(12) AS name", "VIEW", {}),
+                               ("CREATE OR REPLACE VIEW … AS SELECT c::varchar(12) AS name", "VIEW", {"replace": Const(True)}),
+                               ("CREATE TABLE … AS SELECT c::varchar(12) AS name", "TABLE", {})):
+        hooks = []
+
+        def fac():
+            h = ExecHooks(None)
+            hooks.append(h)
+            return h
+
+        def run(I, kind=kind, extra=extra):
+            duck, conn, cur = make_session()
+            dt = node("DataType", this=EnumV("DataType.Type.VARCHAR"), nested=Const(False),
+                      expressions=Lst([node("DataTypeParam", this=lit("12", False))]))
+            sel = node("Select", expressions=Lst([node("Alias", this=node("Cast", this=node("Column", this=ident("C")), to=dt), alias=ident("NAME"))]),
+                       **{"from": node("From", this=table("U"))})
+            stmt = node("Create", "stmt", kind=Const(kind), this=table("V"), expression=sel, **extra)
+            tr = I.call(I.getattr(cur, "_transform"), [stmt], {}, None)
+            return I.call(I.getattr(cur, "_execute"), [tr, Const(None)], {}, None)
+
+        for p, h in zip(explore(prog, fac, run, max_paths=16), hooks):
+            if p.outcome != "return":
+                continue
+            n += 1
+            recorded = any("_fs_columns_ext" in text_of(sqlv) for sqlv, _, _ in h.calls)
+            ctx.ob("C09.m", f"{label}: the declared length is recorded", recorded, "fakesnow/transforms.py")
+            if not recorded:
+                ctx.violation("C09.m", "transforms", "extract_text_length", f"{label}: length not recorded", "fakesnow/transforms.py",
+                              f"after `{label}` no row is written to the VARCHAR-length side table: DESCRIBE and information_schema.columns report "
+                              f"16777216 / NULL for a column declared VARCHAR(12), while the same query as a table with a column list reports 12")
+            break
+    ctx.floor("C09.m query-defined objects", n, 3)
+
+
 def site_loc_(site):
     return f"fakesnow/cursor.py:{getattr(site, 'lineno', 0)}"
 
@@ -813,5 +855,6 @@ RULES = [
     ("C09.c", rule_keys, ("quick", "thorough")),
     ("C09.d", rule_lifecycle, ("quick", "thorough")),
     ("C09.d2", rule_lifecycle_keys, ("quick", "thorough")),
+    ("C09.m", rule_lengths_of_query_defined_objects, ("quick", "thorough")),
     ("C09.e", rule_quote, ("quick", "thorough")),
 ]
